@@ -163,16 +163,20 @@ pub async fn on_did_close_document(
         && !file_path.exists()
     {
         let mut mut_analysis = context.analysis().write().await;
-        mut_analysis.remove_file_by_uri(uri);
-        drop(mut_analysis);
+        // the file may have been created (and loaded by a workspace reload) while this task waited
+        // for the lock: decide with the state of the disk now, not with the one seen before waiting
+        if !file_path.exists() {
+            mut_analysis.remove_file_by_uri(uri);
+            drop(mut_analysis);
 
-        if !lsp_features.supports_pull_diagnostic() {
-            context
-                .file_diagnostic()
-                .clear_push_file_diagnostics(uri.clone());
+            if !lsp_features.supports_pull_diagnostic() {
+                context
+                    .file_diagnostic()
+                    .clear_push_file_diagnostics(uri.clone());
+            }
+
+            return Some(());
         }
-
-        return Some(());
     }
 
     let analysis = context.analysis().read().await;
